@@ -76,6 +76,13 @@ let () =
          | Some Model.OFooterRange -> "footer-range"
          | Some Model.OFooterDecode -> "footer-decode")
     | _ -> failwith "c14.open args");
+  (* c14.pages <cur> <size> <avail> <page sizes>  ->  <pages returned>/<end|unexpected> *)
+  register "c14.pages" (function
+    | [cur; size; avail; pages] ->
+        let ps = List.map (fun x -> n_of_int (int_of_string x)) (split_on ',' pages) in
+        let (k, e) = Model.read_pages (bool_of_tok cur) (n_of_int (int_of_string size)) (n_of_int (int_of_string avail)) Model.N0 ps in
+        Printf.sprintf "%d/%s" (int_of_nat k) (match e with Model.PEnd -> "end" | Model.PUnexpected -> "unexpected")
+    | _ -> failwith "c14.pages args");
   (* c14.readat <size> <off> <len> <n> <nil|eof|other> : File.ReadAt over a reader answering (n, err) to the forwarded call *)
   register "c14.readat" (function
     | [size; off; len; n; e] ->
